@@ -45,7 +45,12 @@ func (p *Program) link() {
 				continue
 			}
 		}
-		g.prim = builtins[g.name]
+		if g.prim = builtins[g.name]; g.prim == nil {
+			g.note = " is neither defined in the file nor a known primitive"
+			if _, later := p.defIdx[g.name]; later {
+				g.note = " is used before its definition in the file"
+			}
+		}
 	}
 	for _, s := range p.lits {
 		d := p.Structs[s.desc]
@@ -68,17 +73,16 @@ func (p *Program) link() {
 			s.order[j] = i
 		}
 	}
+	for _, t := range p.types {
+		p.shape(t, 0)
+	}
 	for _, s := range p.sops {
 		var d *StructDecl
 		if visible(s, s.desc) {
 			d = p.Structs[s.desc]
 		}
-		s.prim = structPrim(s, d)
+		s.prim = structPrim(s, p, d)
 	}
-	for _, t := range p.types {
-		p.shape(t, 0)
-	}
-	p.linkDone = true
 }
 
 // ---- type shapes ---------------------------------------------------------------
